@@ -36,7 +36,10 @@ def run(run):
         sr.envelope_constructions(run, f, sp, rule="O17.1")
         c03.per_request_channel(run, f, sp)
         c13.pairing(run, f, sp)
-        c10.wrapper_shape(run, f, sp)
+        durations = c10.wrapper_shape(run, f, sp)
+        # same error rule as the async API: on the helper thread only the elapsed timer becomes Error::Timeout, every other
+        # outcome of the wrapped tell / ask is passed on unchanged (C10 rule O10.2)
+        c10.error_mapping(run, f, sp, durations)
         sr.no_async_detour(run, f, sp, rule="O17.3")
 
 
